@@ -129,6 +129,90 @@ class Pool:
         return [g() for _, _, g in self.objs]
 
 
+def check_special_operands(res, rng):
+    """purity on the operands that take the rarely used branches of the g3c parameterisation kernels (rotation-free bivectors, the identity
+    rotor, equal poses), with the operands as the *caller's own* arrays: bytes unchanged, results fresh, second evaluation identical"""
+    import numpy as np
+    import clifford.tools.g3c as t
+    import clifford.tools.g3c.rotor_parameterisation as rp
+    L = t.layout
+    tv = float(rng.integers(1, 5)) * t.e1 + float(rng.integers(-4, 5)) * t.e2 + 0.5 * t.e3
+    Bt = tv * t.ninf                                          # rotation-free: exp(B) = 1 + B
+    Br = 0.75 * t.e12 + 0.25 * (t.e2 * t.ninf)                # rotation + translation
+    Rt = t.generate_translation_rotor(tv)
+    Rr = rp.ga_exp(Br)
+    one = 1.0 + 0.0 * t.e1
+    cases = [('ga_exp(translation-only B)', lambda a: rp.ga_exp(a), (Bt,)), ('ga_exp(B)', lambda a: rp.ga_exp(a), (Br,)),
+             ('ga_exp(0)', lambda a: rp.ga_exp(a), (0.0 * t.e12,)),
+             ('val_exp(translation-only B)', lambda a: rp.val_exp(a), (Bt.value.copy(),)), ('val_exp(B)', lambda a: rp.val_exp(a), (Br.value.copy(),)),
+             ('ga_log(translation rotor)', lambda a: rp.ga_log(a), (Rt,)), ('ga_log(R)', lambda a: rp.ga_log(a), (Rr,)),
+             ('interpolate_TR_rotors(R, 1, 0.5)', lambda a, b: rp.interpolate_TR_rotors(a, b, 0.5), (Rr, one)),
+             ('interpolate_TR_rotors(R, R, 0)', lambda a, b: rp.interpolate_TR_rotors(a, b, 0.0), (Rr, Rr.astype(float))),
+             ('general_logarithm(R)', lambda a: rp.general_logarithm(a), (Rr,)),
+             ('TR_biv_params_to_rotor(translation-only)', lambda a: rp.TR_biv_params_to_rotor(a), (np.array([1.0, 2.0, 0.5, 0.0, 0.0, 0.0]),)),
+             ('val_vec_repr_to_bivector', lambda a: rp.val_vec_repr_to_bivector(a), (np.array([1.0, 2.0, 0.5, 0.25, 0.0, -0.5]),)),
+             ('apply_rotor(X, 1)', lambda a, b: t.apply_rotor(a, b), (t.up(tv), one)),
+             ('normalise_n_minus_1', lambda a: t.normalise_n_minus_1(a), (3.0 * t.up(tv),)),
+             ('fast_dual', lambda a: t.fast_dual(a), (t.up(tv),)), ('meet', lambda a, b: t.meet(a, b), (t.up(tv) ^ t.e1 ^ t.ninf, t.e123 * t.ninf + 0 * t.e1))]
+    for name, f, args in cases:
+        arrs = [a.value if hasattr(a, 'value') else a for a in args]
+        before = [a.tobytes() for a in arrs]
+        site = dict(module='tools.g3c', op=name)
+        res.case(('special-operands', name, tuple(before)), nontrivial=True)
+        res.count('special_operands')
+        try:
+            r1 = f(*args)
+            mid = [a.tobytes() for a in arrs]
+            r2 = f(*args)
+        except Exception as e:
+            res.violate('a tools function raises on a special operand', site, repr(e)[:200], None, dict(site, kind='raise'))
+            continue
+        v1, v2 = (r.value if hasattr(r, 'value') else np.asarray(r) for r in (r1, r2))
+        if mid != before or [a.tobytes() for a in arrs] != before:
+            res.violate('a tools function modifies the coefficient array of its operand', dict(site, operand=[np.frombuffer(b).tolist()[:8] for b in before]),
+                        [a.tolist()[:8] for a in arrs], 'unchanged operands', dict(site, kind='operand-modified'))
+        elif any(np.shares_memory(v1, a) for a in arrs) and name not in ('interpolate_TR_rotors(R, R, 0)',):
+            res.violate('the result of a tools function shares memory with its operand', site, None, None, dict(site, kind='result-aliases-operand'))
+        elif not (np.array_equal(v1, v2, equal_nan=True)):
+            res.violate('a tools function evaluated twice on the same operands gives different results', site, v2.tolist()[:8], v1.tolist()[:8], dict(site, kind='not-deterministic'))
+
+
+def check_result_freshness(res, rng):
+    """values handed out by a layout or a multivector on request (pseudoscalar, scalar, blades, basis vectors, invPS, ...) are results: writing
+    into one with a documented mutator changes that object only — the next request returns the original value in other memory"""
+    import numpy as np
+    from harness import real
+    import clifford as cf
+    for lname, L in (('Cl(3)', real.make_layout([1, 1, 1])), ('Cl(1,3)', real.make_layout([1, -1, -1, -1])), ('g3c', real.predefined('g3c'))):
+        N = L.gaDims
+        a = L.MultiVector(np.arange(1, N + 1, dtype=float))
+        accessors = [('layout.pseudoScalar', lambda: L.pseudoScalar), ('layout.I', lambda: L.I), ('layout.scalar', lambda: L.scalar),
+                     ('layout.blades_list[-1]', lambda: L.blades_list[-1]), ('layout.basis_vectors_lst[0]', lambda: L.basis_vectors_lst[0]),
+                     ('layout.blades[name]', lambda: L.blades[L.names[N - 1]]), ('layout.bases()[name]', lambda: L.bases()[L.names[N - 1]]),
+                     ('layout.blades_of_grade(1)[0]', lambda: L.blades_of_grade(1)[0]),
+                     ('mv.pseudoScalar', lambda: a.pseudoScalar), ('mv.I', lambda: a.I), ('mv.invPS()', lambda: a.invPS()), ('mv.dual()', lambda: a.dual()),
+                     ('layout.MultiVector()', lambda: L.MultiVector()), ('layout.randomMV(rng=3)', lambda: L.randomMV(rng=3))]
+        for name, acc in accessors:
+            site = dict(layout=lname, accessor=name)
+            res.case(('freshness', lname, name), nontrivial=True)
+            res.count('result_freshness')
+            try:
+                r1 = acc()
+                ref = r1.value.copy()
+                r1b = acc()
+                shared = np.shares_memory(r1.value, r1b.value)
+                idx = int(np.argmax(np.abs(ref))) if ref.any() else 0
+                r1.value[idx] = 3.0 * (ref[idx] if ref[idx] else 1.0) + 1.0          # what item assignment (a documented mutator) does to its target
+                r1[()] = 5
+                r2 = acc()
+            except Exception as e:
+                res.violate('requesting a layout / multivector value raises', site, repr(e)[:200], None, dict(site, kind='raise'))
+                continue
+            if shared or not np.array_equal(r2.value, ref) or np.shares_memory(r2.value, r1.value):
+                res.violate('a value handed out on request is shared between requests: writing into one result changes what the next request returns',
+                            site, r2.value.tolist()[:8], ref.tolist()[:8], dict(site, kind='shared-result'))
+
+
 def run_history(res, lname, L, rng, length, conformal, g3c_tools, hist_id):
     import numpy as np
     import clifford as cf
@@ -469,6 +553,10 @@ def run_job(job, tier, seed):
             check_twin_layouts(res, rng)
         with common.guard(res, 'blademap purity', {}):
             check_blademap_purity(res, rng)
+        with common.guard(res, 'special operands of the g3c kernels', {}):
+            check_special_operands(res, rng)
+        with common.guard(res, 'freshness of values handed out on request', {}):
+            check_result_freshness(res, rng)
     if job in ('history', 'history_jit'):
         length = 50 if tier == 'quick' else 200
         nh = (3 if tier == 'quick' else 8) if job == 'history' else 1
